@@ -86,7 +86,7 @@ inline std::vector<VMut> value_muts(Cat &C, const std::string &cls, mpz_srcptr v
 }
 
 struct LineMut {
-	size_t k = 0; int field = -1; std::string role, cls, mut, orig, text, why;     // role: stable name of the target; cls: value class enum Op { REPL, DEL, SWAP } op = REPL; bool judged = true, equal = false;
+	size_t k = 0; int field = -1; std::string role /* stable name of the target */, cls /* value class */, mut, orig, text, why; enum Op { REPL, DEL, SWAP } op = REPL; bool judged = true, equal = false;
 };
 
 struct Tok { std::string text; char delim; };
